@@ -498,7 +498,7 @@ def plan (cfg : Cfg) (fs : FS) : Plan :=
     | .ok series =>
       let applied : List Series.Entry := match fs.readFile appliedKey with
         | .error _ => []
-        | .ok (abytes, _) => (match Series.readSeries abytes with | .ok a => a | .error _ => [])
+        | .ok (abytes, _) => (match Series.readApplied abytes with | .ok a => a | .error _ => [])
       if namesMismatch series applied then .refuse
       else if applied.length > series.length then .refuse
       else
